@@ -695,8 +695,9 @@ def main(run: core.Run) -> None:
     # ---------------- twin on every cell
     twin = {}
     failing = []
-    listed = frozenset((d, v, n) for d, v, n in X.dep_live_cells(data["classes"], data["schemas"]))
-    stats["deprecated_live_listed"] = len(listed)
+    # C17-F1 is fixed (52a48cf): no cell may pair a deprecated schema with a live inherited method any more
+    listed = frozenset()
+    stats["deprecated_live_cells"] = len(X.dep_live_cells(data["classes"], data["schemas"]))
     for c, n in cells:
         ok, mir, why, stub, ag = t_cell(data, c["domain"], c["version"], n, listed)
         twin[(c["name"], n)] = (ok, mir, stub, ag)
@@ -978,8 +979,6 @@ def main(run: core.Run) -> None:
                     tie_broken.append(f"{c['name']}.{n} raises NotImplementedError but the parsed method is not a stub")
             elif rec[0] != "ERR" and rec[0] != k_true:
                 known_dep.append((c["name"], n, f"eager {c['name']}.{n} binds {rec[0]}; translation uses opset[{n!r}] = {k_true} (deprecated)"))
-                if (d, N, n) not in listed:
-                    tie_broken.append(f"cell ({c['name']}, {n}) is deprecated-live on the real class but not in the model's list")
             else:
                 oracle_failures.append((c["name"], n, [f"deprecated {n}: calling the method gives {rec[:3]}"]))
         elif sch is not None and not sch.deprecated and r is not None and r[1].get("stub"):
@@ -1234,8 +1233,8 @@ def main(run: core.Run) -> None:
                 generator_stale.append("onnx_opset/__init__.py: exports differ from the generator output")
             data_regen = dict(data, classes=regen["classes"], exports=regen["exports"])
             cells_r, _ = all_cells(data_regen)
-            # the generator may emit stubs (fix C17-F1) or still leave the deprecated-live cells: both are its listed state
-            listed_regen = frozenset((d, v, n) for d, v, n in X.dep_live_cells(data_regen["classes"], data_regen["schemas"]))
+            # a generator that stops emitting the stubs of 52a48cf fails the deprecated cells here
+            listed_regen = frozenset()
             for c, n in cells_r:
                 ok, mir, why, _st, _ag = t_cell(data_regen, c["domain"], c["version"], n, listed_regen)
                 if not ok:
@@ -1246,6 +1245,7 @@ def main(run: core.Run) -> None:
     run.coverage["phase_seconds"] = phase
     # ---------------- verdict
     findings = {f["id"]: f for f in run.open_findings()}
+    reported = False
     if known_dep:
         stats["known_deprecated_inherited_cells"] = len(known_dep)
         if FINDING_DEPRECATED in findings:
@@ -1258,9 +1258,10 @@ def main(run: core.Run) -> None:
                               f"deprecated operator(s) {extra} still callable through an inherited method, outside the listed finding")
         else:
             cn, n, what = known_dep[0]
-            run.violation({"cls": cn, "op": n, "kind": "deprecated-inherited", "detail": what}, what)
+            run.violation({"cls": cn, "op": n, "kind": "deprecated-inherited (regression of the fixed finding C17-F1)", "detail": what,
+                           "cells": [(a, b) for a, b, _ in known_dep[:40]]}, what)
+            reported = True
 
-    reported = False
     if numeric_failures:
         cn, op, detail, shapes, req = numeric_failures[0]
         run.violation(
@@ -1341,7 +1342,7 @@ def main(run: core.Run) -> None:
                     "hist_new_generated", "hist_new_UserOpset", "hist_domain_ai.onnx.ml", "hist_domain_ai.onnx.preview",
                     "hist_domain_my.domain", "executed_trim_yes", "executed_trim_no", "sep_ok_nofill", "sep_ok_fill",
                     "sep_err_missingRequired", "sep_err_unexpectedKw", "sep_err_tooManyArgs", "translation_equal_default",
-                    "translation_equal_ai.onnx.ml", "prep_trimmed_0", "prep_trimmed_1", "prep_trimmed_3", "cell_SM", "cell_--"]
+                    "translation_equal_ai.onnx.ml", "deprecated_stub_raises", "cell_stub", "prep_trimmed_0", "prep_trimmed_1", "prep_trimmed_3", "cell_SM", "cell_--"]
         zero = [k for k in required if not stats[k]]
         # a zero counter with a clean verdict means the generator degenerated; with a violation already printed it is a consequence
         if zero and not run.violations:
